@@ -116,6 +116,21 @@ def _session_call(kind):
     return model
 
 
+def _deselect_site(ex, frame, e, base):
+    """selected.deselect(): the object leaves the set of selected mailbox objects NOW (a selection that merely becomes
+    unreferenced stays in the weak set until it is collected, and would go on taking the \\Recent of later deliveries)"""
+    ex.st.ghost['deselected'] = base
+    return VNone()
+
+
+def _old_selection_left_the_set(s):
+    old = unview_field(s.old, '_selected')
+    if isinstance(old, VNone):
+        return VBool(True)
+    d = s._st.ghost.get('deselected')
+    return VBool(d is not None and getattr(d, 'rid', None) == old.rid)
+
+
 def _exists_site(ex, frame, e):
     """ExistsResponse(n) in do_select: the count the client is told is the count of the VIEW the server will number from
     (the new selection's synchronized messages) -- not the snapshot's, which another session may have outdated between
@@ -149,6 +164,7 @@ REG = {
     ('Response', 'add_untagged'): _noop_method,
     ('Response', 'add_untagged_ok'): _noop_method,
     ('SelectedMailbox', 'silence'): lambda ex, frame, e, base: _silence_site(ex, frame, e, base),
+    ('SelectedMailbox', 'deselect'): lambda ex, frame, e, base: _deselect_site(ex, frame, e, base),
     ('Msg', 'get_flags'): _opaque('FSetV'),
     ('MsgAttrs', 'load_hook'): _opaque('Hook'),
 }
@@ -162,7 +178,7 @@ CALLS = {
     'RecentResponse': _opaque('Untagged'), 'PermanentFlags': _opaque('Code'), 'UidNext': _opaque('Code'),
     'UidValidity': _opaque('Code'), 'Unseen': _opaque('Code'), 'MailboxId': _opaque('Code'),
 }
-INLINE = {'ConnectionState.selected', 'ConnectionState.session'}
+INLINE = {'ConnectionState.selected', 'ConnectionState.session', 'ConnectionState._deselect'}
 CmdS = RefS('Cmd', uid=BOOL, silent=BOOL, readonly=BOOL, mailbox=NameR, cmdkind=INT, tag=RefS('Tag'),
             command=RefS('Bytes'), sequence_set=RefS('SeqSetRef'), flag_set=RefS('FlagSetRef'),
             mode=RefS('FlagOp'), keys=RefS('Keys'))
@@ -190,6 +206,7 @@ do_search = _mk('do_search', dict(self=STATE, cmd=CmdS), prop='C01', loops=_loop
 do_close = _mk('do_close', dict(self=STATE, cmd=CmdS), prop='C05',
                ensures=[('answers_ok', lambda s: s.wrap(s.result[0]).kind == 1),
                         ('deselects', lambda s: VBool(isinstance(unview_field(s, '_selected'), VNone))),
+                        ('the_old_selection_is_taken_out_of_the_selected_set', _old_selection_left_the_set),
                         ('hands_back_no_selection', lambda s: is_none(s.result[1]))],
                raises_only=(AttributeError,),
                note='CLOSE always succeeds and deselects (statement of C05/C12), for read-only selections too')
@@ -207,9 +224,11 @@ do_select = _mk('do_select', dict(self=STATE, cmd=CmdS), prop='C05',
                     ('read_only_when_examined', lambda s: implies(s.cmd.readonly, s.wrap(s.result[1])._readonly)),
                     ('hands_back_the_new_selection', lambda s: VBool(
                         unview(s.result[1]).rid == s.ghost('new_selection').rid)),
+                    ('the_old_selection_is_taken_out_of_the_selected_set', _old_selection_left_the_set),
                 ],
                 raises={ResponseError: [('failed_select_leaves_none_selected', lambda s: VBool(
-                    isinstance(unview_field(s, '_selected'), VNone)))]},
+                    isinstance(unview_field(s, '_selected'), VNone))),
+                    ('the_old_selection_is_taken_out_of_the_selected_set', _old_selection_left_the_set)]},
                 raises_only=(ResponseError, AttributeError))
 
 CONTRACTS = [do_fetch, do_store, do_search, do_close, do_select]
